@@ -20,6 +20,30 @@ STRENGTH = {
     'C13_m3': 'gradf that returns its argument / a view / an incrementally maintained caller-owned buffer',
     'C14_m4': 'first run: configured-data correspondence only (no concrete input); dominant-l2 stream (lamda >> ||A||^2, default steps) so the optimum oracle exhibits one',
     'C15_m2': 'PowerMethod on genuinely 2-D operands',
+    'C01_m6': 'first run: broken correspondence build only; same-shape Resize with ONE explicit shift in the leaf generator and the systematic grid',
+    'C02_m5': 'first run: static alias scan only (no concrete input); interleaved application of convolution operators that differ only in strides / mode, each repeated and compared with its first output',
+    'C02_m6': 'first run: fail-closed translator only; float32 / complex64 storage of the inputs in 30 % of the trees and in the systematic grid',
+    'C03_m5': 'first run: fail-closed translator only; rank-changing blocks under stacks with negative axes, with the shapes the EXPRESSION must advertise computed from the definition',
+    'C03_m6': 'first run: fail-closed translator only; expression-level overload oracle (a*A, A*a, -A, A+B, A-B, A*B against the matrix expression of the OPERANDS, incl. Conj operands)',
+    'C06_m6': '2-D point sets with the sample array in F / permuted / strided layouts (vlib/layouts.py)',
+    'C07_m5': 'first run: fail-closed translator only; call sequences float32 coords -> int coords -> float64 coords with fractional width / param',
+    'C07_m6': 'first run: fail-closed translator only; data arrays in non-C-contiguous layouts',
+    'C09_m5': 'first run: fail-closed translator only; the empty subset of axes for flip',
+    'C09_m6': 'every function re-run on F / transposed / strided / real-part-of-complex layouts',
+    'C11_m7': 'first run: fail-closed translator only; object reuse: P(alpha, P(alpha, y)) with ONE object against two fresh objects, earlier result must survive a later call',
+    'C11_m8': 'first run: fail-closed translator only; non-Hermitian inputs whose Hermitian part is PSD',
+    'C12_m7': 'first run: fail-closed translator only; 2-D iterates in F / transposed / volume-slice layouts that cannot be flattened without a copy',
+    'C13_m7': 'the same 2-D layouts for the primal array of GradientMethod and PDHG',
+    'C14_m8': 'data of magnitude 1e-7 .. 1e-12 (homogeneous problems) for every solver',
+    'C15_m5': 'first run: fail-closed translator only; operators scaled by 1e-18 .. 1e8 in the power-iteration oracle',
+    'C15_m6': 'LinearLeastSquares with a caller-supplied x narrower than the data: run() must return what the algorithm holds',
+    'C16_m8': 'homogeneity recon(s*y) = s*recon(y) for s = 1e-6 .. 1e-12 in double and single precision',
+    'C17_m5': 'first run: fail-closed translator only; k-space scaled by 1e-6 .. 1e3 in the recovery family',
+    'C17_m6': 'NO concrete input: the defect is in util.resize (equal element count, different shape) and shows only when calib_width exceeds an image axis, where map recovery is poor (0.1-0.2) on the clean tree too; reported through the dependency tie on util.py',
+    'C18_m5': 'first run: fail-closed translator only; prior RNG state with a cached Box-Muller value',
+    'C19_m7': 'polynomials with bit-identical coefficient magnitudes and different phases designed right after each other',
+    'C20_m5': 'first run: fail-closed translator only; near-duplicate requests (every argument within 1e-9) right after each other',
+    'C20_m6': 'spoke locations given as integer / float32 arrays',
     'C05_m6': 'call sequences: consecutive centred calls with one oshape / dtype and shrinking input shapes',
     'C08_m6': 'mixed dtypes (real first array, complex second): rejected or equal to the definition',
     'C11_m5': 'first run: fail-closed translator only; real-valued y in a real dtype with complex parameters must give the same point as the same values stored as complex',
